@@ -650,4 +650,225 @@ theorem runWorker_is_runWG_bisync (pol : Policy) (cfg : Cfg) :
       | errModule => simp [runBisync, hr, hrs, hb, workerTarget, applyReqs_append, lastOut]
       | errBad => simp [runBisync, hr, hrs, hb, workerTarget, applyReqs_append, lastOut]
 
+/-! ### 5. keyless entries (functions, AUX fields) are transparent
+
+  A real worker stream has AUX entries (`redis-ver`, …) and function libraries
+  between the key groups. Both replayers send their commands as they are and
+  touch neither the keyspace nor the remembered state, so outcome, state and
+  target of a run are those of the run over the KEYED entries alone. -/
+
+def keyless (e : Entry) : Bool := decide (e.otype = .func) || decide (e.otype = .aux)
+
+theorem applyReqs_id (t : Target) (rs : List Req) (h : ∀ r ∈ rs, reqKey r = none ∧ noSel r) : applyReqs t rs = t := by
+  induction rs generalizing t with
+  | nil => rfl
+  | cons r rs ih =>
+    simp only [applyReqs, List.foldl_cons]
+    have hr := h r (List.mem_cons_self ..)
+    have : applyReq t r = t := by rw [applyReq_eq t r hr.2, hr.1]
+    rw [this]
+    exact ih t (fun x hx => h x (List.mem_cons_of_mem _ hx))
+
+theorem replay_keyless (pol : Policy) (cfg : Cfg) (st : RState) (v : View) (e : Entry) (h : keyless e = true) :
+    replay pol cfg st v e = (e.cmds.map Req.raw, .ok, st) := by
+  unfold keyless at h
+  unfold replay
+  cases ho : e.otype <;> simp [ho] at h ⊢
+
+theorem runPlain_keyless (pol : Policy) (cfg : Cfg) (st : RState) (t : Target) (e : Entry) (rest : List Entry)
+    (h : keyless e = true) :
+    (runPlain pol cfg st t (e :: rest)).out = (runPlain pol cfg st t rest).out ∧
+    (runPlain pol cfg st t (e :: rest)).st = (runPlain pol cfg st t rest).st ∧
+    (runPlain pol cfg st t (e :: rest)).tgt = (runPlain pol cfg st t rest).tgt := by
+  have hr := replay_keyless pol cfg st (viewOf t e) e h
+  have hid : applyReqs t (e.cmds.map Req.raw) = t := applyReqs_id t _ (by
+    intro r hr; obtain ⟨c, _, rfl⟩ := List.mem_map.mp hr; simp [reqKey, noSel])
+  obtain ⟨_, h2, h3, h4⟩ := runPlain_cons_ok pol cfg st t e rest _ _ hr
+  rw [hid] at h2 h3 h4
+  exact ⟨h2, h3, h4⟩
+
+theorem runPlain_strip (pol : Policy) (cfg : Cfg) :
+    ∀ (es : List Entry) (st : RState) (t : Target),
+      (runPlain pol cfg st t es).out = (runPlain pol cfg st t (es.filter (fun e => !keyless e))).out ∧
+      (runPlain pol cfg st t es).st = (runPlain pol cfg st t (es.filter (fun e => !keyless e))).st ∧
+      (runPlain pol cfg st t es).tgt = (runPlain pol cfg st t (es.filter (fun e => !keyless e))).tgt
+  | [], st, t => by simp
+  | e :: es, st, t => by
+    cases hk : keyless e with
+    | true =>
+      obtain ⟨h1, h2, h3⟩ := runPlain_keyless pol cfg st t e es hk
+      simp only [List.filter_cons, hk, Bool.not_true, Bool.false_eq_true, if_false]
+      rw [h1, h2, h3]
+      exact runPlain_strip pol cfg es st t
+    | false =>
+      simp only [List.filter_cons, hk, Bool.not_false, if_true]
+      cases hr : replay pol cfg st (viewOf t e) e with
+      | mk rs p =>
+        obtain ⟨out, st'⟩ := p
+        have ih := runPlain_strip pol cfg es st' (applyReqs t rs)
+        cases out <;> simp [runPlain, hr, ih]
+
+theorem buildUnit_keyless (pol : Policy) (cfg : Cfg) (st : RState) (v : View) (e : Entry) (h : keyless e = true) :
+    (buildUnit pol cfg st v e).1 = [] ∧ (buildUnit pol cfg st v e).2.2.2 = st ∧
+    ((buildUnit pol cfg st v e).2.2.1 = .skip ∨ (buildUnit pol cfg st v e).2.2.1 = .unit) ∧
+    (∀ r ∈ (buildUnit pol cfg st v e).2.1, reqKey r = none ∧ noSel r) := by
+  have hk : (!(decide (e.otype = OType.func) || decide (e.otype = OType.aux))) = false := by
+    unfold keyless at h; simp [h]
+  have hx : ∀ r ∈ expandB cfg e false, reqKey r = none ∧ noSel r := by
+    intro r hr
+    unfold expandB at hr
+    simp only [Bool.false_eq_true, if_false, and_false, List.append_nil] at hr
+    obtain ⟨c, _, rfl⟩ := List.mem_map.mp hr
+    simp [reqKey, noSel]
+  unfold buildUnit
+  extract_lets hasKey st1 probe direct c1 c2
+  have h1 : hasKey = false := hk
+  have hst : st1 = st := by simp only [st1, h1]; simp
+  have hp : probe = false := by simp only [probe, h1]; simp
+  have hd : direct = [] := by simp only [direct, hp]; simp
+  have hc1 : c1 = expandB cfg e false := by simp only [c1, h1]
+  have hc2 : c2 = expandB cfg e false := by simp only [c2, h1, hc1]; simp
+  simp only [h1, hp, Bool.false_and, Bool.false_eq_true, if_false]
+  split
+  · exact ⟨hd, hst, Or.inl rfl, by simp⟩
+  · exact ⟨hd, hst, Or.inr rfl, by rw [hc2]; exact hx⟩
+
+theorem runBisync_keyless (pol : Policy) (cfg : Cfg) (st : RState) (t : Target) (e : Entry) (rest : List Entry)
+    (h : keyless e = true) :
+    (runBisync pol cfg st t (e :: rest)).out = (runBisync pol cfg st t rest).out ∧
+    (runBisync pol cfg st t (e :: rest)).st = (runBisync pol cfg st t rest).st ∧
+    (runBisync pol cfg st t (e :: rest)).tgt = (runBisync pol cfg st t rest).tgt := by
+  obtain ⟨b1, b2, b3, b4⟩ := buildUnit_keyless pol cfg st (viewOf t e) e h
+  cases hb : buildUnit pol cfg st (viewOf t e) e with
+  | mk direct p =>
+    obtain ⟨cmds, out, st'⟩ := p
+    rw [hb] at b1 b2 b3 b4
+    simp only at b1 b2 b3 b4
+    subst b1 b2
+    have hid : applyReqs t ([] ++ if out = BOutcome.unit then execUnit cmds else []) = t := by
+      apply applyReqs_id
+      intro r hr
+      simp only [List.nil_append] at hr
+      split at hr
+      · simp only [execUnit, List.mem_cons, List.mem_append, List.cons_append] at hr
+        rcases hr with rfl | rfl | hr
+        · simp [reqKey, noSel]
+        · simp [reqKey, noSel]
+        · rcases hr with hr | hr
+          · exact b4 r hr
+          · simp at hr; subst hr; simp [reqKey, noSel]
+      · simp at hr
+    rcases b3 with rfl | rfl
+    · simp only [List.nil_append, reduceCtorEq, if_false] at hid
+      simp [runBisync, hb, bOut, hid]
+    · simp only [List.nil_append, if_true] at hid
+      simp [runBisync, hb, bOut, hid]
+
+theorem runBisync_strip (pol : Policy) (cfg : Cfg) :
+    ∀ (es : List Entry) (st : RState) (t : Target),
+      (runBisync pol cfg st t es).out = (runBisync pol cfg st t (es.filter (fun e => !keyless e))).out ∧
+      (runBisync pol cfg st t es).st = (runBisync pol cfg st t (es.filter (fun e => !keyless e))).st ∧
+      (runBisync pol cfg st t es).tgt = (runBisync pol cfg st t (es.filter (fun e => !keyless e))).tgt
+  | [], st, t => by simp
+  | e :: es, st, t => by
+    cases hk : keyless e with
+    | true =>
+      obtain ⟨h1, h2, h3⟩ := runBisync_keyless pol cfg st t e es hk
+      simp only [List.filter_cons, hk, Bool.not_true, Bool.false_eq_true, if_false]
+      rw [h1, h2, h3]
+      exact runBisync_strip pol cfg es st t
+    | false =>
+      simp only [List.filter_cons, hk, Bool.not_false, if_true]
+      cases hr : buildUnit pol cfg st (viewOf t e) e with
+      | mk direct p =>
+        obtain ⟨cmds, out, st'⟩ := p
+        have ih := runBisync_strip pol cfg es st' (applyReqs t (direct ++ if out = BOutcome.unit then execUnit cmds else []))
+        cases out <;> simp [runBisync, hr, bOut] <;> simpa using ih
+
+theorem target_ext (a b : Target) (h1 : a.cur = b.cur) (h2 : a.now = b.now) (h3 : a.ks = b.ks) (h4 : a.bad = b.bad) : a = b := by
+  cases a; cases b; simp_all
+
+theorem runWG_cons (run : RState → Target → List Entry → Run) (cur : Nat) (st : RState) (t : Target) (e : Entry) (rest : List Entry) :
+    runWG run cur st t (e :: rest) =
+      if (run st (applyReqs t (if e.db ≥ 0 ∧ e.db.toNat ≠ cur then [Req.select e.db.toNat] else [])) [e]).out = .ok then
+        ({ reqs := (if e.db ≥ 0 ∧ e.db.toNat ≠ cur then [Req.select e.db.toNat] else []) ++
+              (run st (applyReqs t (if e.db ≥ 0 ∧ e.db.toNat ≠ cur then [Req.select e.db.toNat] else [])) [e]).reqs ++
+              (runWG run (if e.db ≥ 0 then e.db.toNat else cur)
+                (run st (applyReqs t (if e.db ≥ 0 ∧ e.db.toNat ≠ cur then [Req.select e.db.toNat] else [])) [e]).st
+                (run st (applyReqs t (if e.db ≥ 0 ∧ e.db.toNat ≠ cur then [Req.select e.db.toNat] else [])) [e]).tgt rest).1.reqs,
+           out := (runWG run (if e.db ≥ 0 then e.db.toNat else cur)
+                (run st (applyReqs t (if e.db ≥ 0 ∧ e.db.toNat ≠ cur then [Req.select e.db.toNat] else [])) [e]).st
+                (run st (applyReqs t (if e.db ≥ 0 ∧ e.db.toNat ≠ cur then [Req.select e.db.toNat] else [])) [e]).tgt rest).1.out,
+           st := (runWG run (if e.db ≥ 0 then e.db.toNat else cur)
+                (run st (applyReqs t (if e.db ≥ 0 ∧ e.db.toNat ≠ cur then [Req.select e.db.toNat] else [])) [e]).st
+                (run st (applyReqs t (if e.db ≥ 0 ∧ e.db.toNat ≠ cur then [Req.select e.db.toNat] else [])) [e]).tgt rest).1.st,
+           tgt := (runWG run (if e.db ≥ 0 then e.db.toNat else cur)
+                (run st (applyReqs t (if e.db ≥ 0 ∧ e.db.toNat ≠ cur then [Req.select e.db.toNat] else [])) [e]).st
+                (run st (applyReqs t (if e.db ≥ 0 ∧ e.db.toNat ≠ cur then [Req.select e.db.toNat] else [])) [e]).tgt rest).1.tgt },
+         (runWG run (if e.db ≥ 0 then e.db.toNat else cur)
+                (run st (applyReqs t (if e.db ≥ 0 ∧ e.db.toNat ≠ cur then [Req.select e.db.toNat] else [])) [e]).st
+                (run st (applyReqs t (if e.db ≥ 0 ∧ e.db.toNat ≠ cur then [Req.select e.db.toNat] else [])) [e]).tgt rest).2)
+      else
+        ({ reqs := (if e.db ≥ 0 ∧ e.db.toNat ≠ cur then [Req.select e.db.toNat] else []) ++
+              (run st (applyReqs t (if e.db ≥ 0 ∧ e.db.toNat ≠ cur then [Req.select e.db.toNat] else [])) [e]).reqs,
+           out := (run st (applyReqs t (if e.db ≥ 0 ∧ e.db.toNat ≠ cur then [Req.select e.db.toNat] else [])) [e]).out,
+           st := (run st (applyReqs t (if e.db ≥ 0 ∧ e.db.toNat ≠ cur then [Req.select e.db.toNat] else [])) [e]).st,
+           tgt := (run st (applyReqs t (if e.db ≥ 0 ∧ e.db.toNat ≠ cur then [Req.select e.db.toNat] else [])) [e]).tgt },
+         if e.db ≥ 0 then e.db.toNat else cur) := by
+  simp only [runWG]
+
+/-- the same for the worker loop with DB selection: the keyless entries may move the
+    connection to another DB (AUX entries carry the DB of their place in the file),
+    the next keyed entry selects its own DB anyway: outcome, state and KEYSPACE are
+    those of the worker over the keyed entries alone -/
+theorem runWG_strip (run : RState → Target → List Entry → Run)
+    (hkl : ∀ st t e, keyless e = true → (run st t [e]).out = .ok ∧ (run st t [e]).st = st ∧ (run st t [e]).tgt = t)
+    (hinv : ∀ st t e, (run st t [e]).tgt.cur = t.cur) :
+    ∀ (es : List Entry) (c1 c2 : Nat) (st : RState) (t1 t2 : Target),
+      t1.cur = c1 → t2.cur = c2 → t1.ks = t2.ks → t1.now = t2.now → t1.bad = t2.bad →
+      (∀ e ∈ es, keyless e = false → ∃ d : Nat, e.db = Int.ofNat d) →
+      (runWG run c1 st t1 es).1.out = (runWG run c2 st t2 (es.filter (fun e => !keyless e))).1.out ∧
+      (runWG run c1 st t1 es).1.st = (runWG run c2 st t2 (es.filter (fun e => !keyless e))).1.st ∧
+      (runWG run c1 st t1 es).1.tgt.ks = (runWG run c2 st t2 (es.filter (fun e => !keyless e))).1.tgt.ks
+  | [], c1, c2, st, t1, t2, _, _, h3, _, _, _ => by simp [runWG, h3]
+  | e :: es, c1, c2, st, t1, t2, h1, h2, h3, h4, h5, hdb => by
+    have hdb' : ∀ x ∈ es, keyless x = false → ∃ d : Nat, x.db = Int.ofNat d := fun x hx => hdb x (List.mem_cons_of_mem _ hx)
+    cases hk : keyless e with
+    | true =>
+      simp only [List.filter_cons, hk, Bool.not_true, Bool.false_eq_true, if_false]
+      rw [runWG_cons run c1 st t1 e es]
+      obtain ⟨k1, k2, k3⟩ := hkl st (applyReqs t1 (if e.db ≥ 0 ∧ e.db.toNat ≠ c1 then [Req.select e.db.toNat] else [])) e hk
+      simp only [k1, if_true, k2, k3]
+      refine runWG_strip run hkl hinv es _ c2 st _ t2 ?_ h2 ?_ ?_ ?_ hdb'
+      · by_cases hd : e.db ≥ 0
+        · by_cases hne : e.db.toNat ≠ c1
+          · simp [hd, hne, applyReqs, applyReq]
+          · have : e.db.toNat = c1 := by simpa using hne
+            simp [hd, this, applyReqs, h1]
+        · simp [hd, applyReqs, h1]
+      · rw [← h3]; split <;> simp [applyReqs, applyReq]
+      · rw [← h4]; split <;> simp [applyReqs, applyReq]
+      · rw [← h5]; split <;> simp [applyReqs, applyReq]
+    | false =>
+      obtain ⟨d, hd⟩ := hdb e (List.mem_cons_self ..) hk
+      simp only [List.filter_cons, hk, Bool.not_false, if_true]
+      have hs1 : (if e.db ≥ 0 ∧ e.db.toNat ≠ c1 then [Req.select e.db.toNat] else []) = (if d ≠ c1 then [Req.select d] else []) := by
+        rw [hd]; simp
+      have hs2 : (if e.db ≥ 0 ∧ e.db.toNat ≠ c2 then [Req.select e.db.toNat] else []) = (if d ≠ c2 then [Req.select d] else []) := by
+        rw [hd]; simp
+      have hc1 : (if e.db ≥ 0 then e.db.toNat else c1) = d := by rw [hd]; simp
+      have hc2 : (if e.db ≥ 0 then e.db.toNat else c2) = d := by rw [hd]; simp
+      obtain ⟨a1, a2, a3, a4⟩ := applySel t1 c1 d h1
+      obtain ⟨b1, b2, b3, b4⟩ := applySel t2 c2 d h2
+      have heq : applyReqs t1 (if d ≠ c1 then [Req.select d] else []) = applyReqs t2 (if d ≠ c2 then [Req.select d] else []) :=
+        target_ext _ _ (a1.trans b1.symm) (by rw [a3, b3, h4]) (by rw [a2, b2, h3]) (by rw [a4, b4, h5])
+      rw [runWG_cons run c1 st t1 e es, runWG_cons run c2 st t2 e]
+      simp only [hs1, hs2, hc1, hc2, heq]
+      generalize hr : run st (applyReqs t2 (if d ≠ c2 then [Req.select d] else [])) [e] = r1
+      have hcur : r1.tgt.cur = d := by rw [← hr, hinv]; exact b1
+      by_cases ho : r1.out = .ok
+      · simp only [ho, if_true]
+        exact runWG_strip run hkl hinv es d d r1.st r1.tgt r1.tgt hcur hcur rfl rfl rfl hdb'
+      · simp [ho]
+
 end GunYu.Restore
